@@ -30,6 +30,36 @@ CLAIMS = {
         note=COMMON_NOTE + 'The hand-written regex matcher is tied to REGEX_SPEC by string equality and to `re` by the sweep; ASCII-only texts; Machine._time_pattern / Clock.wait_until are covered by differential runs, not by theorems.',
         technique='Coq proof (finite reflection lifted by structural lemmas) over translated definitions + exhaustive correspondence',
         design='DESIGN.md 7 C11'),
+    'C03': dict(
+        text=('Scoping laws proved on the reference semantics for all states and programs: a parameter/local hides a global for reads and '
+              'writes; assignment targets parameter/local, else existing global, else a new local; every value position and call (nested, '
+              'recursive, as argument or operand) returns with the caller\'s parameters and locals unchanged (induction on fuel); return '
+              'ends the call from any depth and delivers its value. Refinement of the machine\'s call stack to that scoping: reads '
+              '(get_variable), writes (put_variable on settled frames), loop frames transparent, a frame under construction invisible, '
+              'return pops exactly the loop frames of the current call. Oracle/correspondence runs on routine-heavy generated scripts.'),
+        note=COMMON_NOTE + 'The link from the refinement lemmas to whole-program behaviour (compile_correct) is work in progress: see C01; until then whole-program agreement is tested per run.',
+        technique='Coq refinement lemmas (call stack vs scope spec) + induction on fuel over the reference semantics; oracle and correspondence runs',
+        design='DESIGN.md 7 C03'),
+    'C04': dict(
+        text=('On the reference semantics: `repeat n` runs a normally-completing body exactly n times for every n (induction), 0 or negative '
+              'counts not at all; the two-bound form computes count |b-a|+1 and step +-1 and its values are exactly a..b in order either '
+              'direction; interpolating and cycle forms over exact rationals: v_k = a + k*incr, both ends included, s + k*turn/n; while '
+              're-tests before every pass; break ends the innermost loop only; light/group/location name lists and member lists are '
+              'strictly sorted, duplicate free and exact, so each name is bound once in name order. Oracle/correspondence runs on '
+              'loop-heavy generated scripts (every form, nesting, break positions, populations from 0 lights).'),
+        note=COMMON_NOTE + 'Value-sequence closed forms are over exact arithmetic (Q / Z); binary64 accumulation of the increment is what the runs compare bit for bit. Index-variable and light-variable binding inside the generic loop driver is covered by the runs, not yet by a general theorem.',
+        technique='Coq proofs by induction on the iteration count over the reference semantics; closed forms over Q; oracle and correspondence runs',
+        design='DESIGN.md 7 C04'),
+    'C13': dict(
+        text=('Model of SortedList and LightSet with the invariant dir_inv proved for every reachable state (any history length, any strings), '
+              'boolean invariant proved equivalent and evaluated on the real state after every step; expiry removes exactly the lights older '
+              'than the configured age with all memberships; every getter is a function of the abstract map name -> (group, location, last '
+              'seen); next/prev from any probe = least greater / greatest smaller; iterate-while-removing visits every remaining element once, '
+              'in order, and terminates; CPython\'s bisect loops proved correct. Real LightSet driven through exhaustive short histories and '
+              'random long ones; VmDiscover walks with discoveries and expiries between steps.'),
+        note=COMMON_NOTE + 'LightSet is unlocked: changes happen between steps, not during them (assumption). Fake LightApi and patched time in the harness.',
+        technique='Coq proof: inductive invariant over histories, refinement to an abstract map, sorted-list lemmas; exhaustive + random correspondence',
+        design='DESIGN.md 7 C13'),
     'C15': dict(
         text=('Command-level machine of zone / matrix commands (Lang/Matrix.v) proved equal to the cell-wise specification for any '
               'matrix size, any number of stages and statements (induction): zone range exact; each cell carries the last covering '
